@@ -68,6 +68,10 @@ type vhPhys struct {
 	count   map[int]int
 	failSel func(op vhOp) bool // optional filter: only ops matching count towards failAt
 	gates   map[int]*vhGateThread
+	// key fault: the next op of ANY goroutine (tagged or not) of kind kfKind whose key contains kfSub and whose call
+	// stack contains kfStack ("" = any) fails, once
+	kfKind, kfSub, kfStack string
+	kfArmed, kfFired       bool
 }
 
 func vhNewPhys(t *testing.T) *vhPhys {
@@ -107,6 +111,22 @@ func (p *vhPhys) FailNth(t, n int) {
 	p.failAt[t] = n
 	p.count[t] = 0
 	p.mu.Unlock()
+}
+
+// FailKeyOnce arms a single fault that also hits background goroutines (restore workers, revocation jobs): the next
+// storage op of the given kind whose key contains sub, issued from a call stack that contains stackSub, fails once.
+func (p *vhPhys) FailKeyOnce(kind, sub, stackSub string) {
+	p.mu.Lock()
+	p.kfKind, p.kfSub, p.kfStack, p.kfArmed, p.kfFired = kind, sub, stackSub, true, false
+	p.mu.Unlock()
+}
+
+// KeyFaultFired reports whether the fault armed by FailKeyOnce was delivered, and disarms it.
+func (p *vhPhys) KeyFaultFired() bool {
+	p.mu.Lock()
+	defer p.mu.Unlock()
+	p.kfArmed = false
+	return p.kfFired
 }
 
 func (p *vhPhys) ClearFaults() {
@@ -158,6 +178,18 @@ func (p *vhPhys) before(kind, key string) error {
 				delete(p.failAt, t)
 				op.Failed = true
 			}
+		}
+	}
+	if p.kfArmed && kind == p.kfKind && strings.Contains(key, p.kfSub) {
+		hit := p.kfStack == ""
+		if !hit {
+			b := make([]byte, 16384)
+			b = b[:runtime.Stack(b, false)]
+			hit = bytes.Contains(b, []byte(p.kfStack))
+		}
+		if hit {
+			p.kfArmed, p.kfFired = false, true
+			op.Failed = true
 		}
 	}
 	if p.rec {
